@@ -14,7 +14,12 @@ const SUFS: &[&str] = &["", "", "", "", "1", "2", "3", "10", "125"];
 
 pub fn gen_name(rng: &mut Rng) -> Vec<u8> {
     loop {
-        let mut v = rng.pick(SHORTS).as_bytes().to_vec();
+        let mut v = if rng.chance(1, 5) {
+            // random short form (keeps wide branches of several hundred children feasible)
+            (0..1 + rng.usize(4)).map(|_| b'A' + rng.usize(26) as u8).collect()
+        } else {
+            rng.pick(SHORTS).as_bytes().to_vec()
+        };
         v.extend_from_slice(rng.pick(TAILS).as_bytes());
         v.extend_from_slice(rng.pick(SUFS).as_bytes());
         if v.len() <= 12 {
@@ -53,6 +58,8 @@ pub fn ambiguous_pair(a: &[u8], b: &[u8]) -> bool {
 }
 
 pub struct TreeGen {
+    /// root level with several hundred children (past every 8-bit child index)
+    pub wide_root: bool,
     pub unambiguous: bool,
     pub max_depth: usize,
     pub max_fanout: usize,
@@ -78,7 +85,8 @@ impl TreeGen {
     }
 
     fn gen_children_opt(&mut self, rng: &mut Rng, depth: usize, forbidden: &[Vec<u8>], allow_default: bool) -> Vec<Spec> {
-        let n = 1 + rng.usize(self.max_fanout);
+        let n = if depth == 0 && self.wide_root { 258 + rng.usize(50) } else { 1 + rng.usize(self.max_fanout) };
+        let max_tries = if depth == 0 && self.wide_root { 20_000 } else { 60 };
         let mut out: Vec<Spec> = Vec::new();
         // default child first (documented requirement of the library)
         let want_default = allow_default && if depth > 0 { rng.chance(1, 2) } else { rng.chance(1, 3) };
@@ -88,7 +96,7 @@ impl TreeGen {
         // being named, so its first level gets no default child.
         let own_handler_then_default_branch = want_default && depth > 0 && depth < self.max_depth && rng.chance(1, 3);
         let mut tries = 0;
-        while out.len() < n.max(if own_handler_then_default_branch { 2 } else { 1 }) && tries < 60 {
+        while out.len() < n.max(if own_handler_then_default_branch { 2 } else { 1 }) && tries < max_tries {
             tries += 1;
             if own_handler_then_default_branch && out.len() < 2 {
                 if out.is_empty() {
@@ -153,7 +161,11 @@ impl TreeGen {
 
     /// Generate the children of the root (incl. a few common commands). Returns specs and handler count.
     pub fn generate(rng: &mut Rng, unambiguous: bool) -> (Vec<Spec>, usize) {
-        let mut g = TreeGen { unambiguous, max_depth: 1 + rng.usize(5), max_fanout: 1 + rng.usize(6), next_handler: 0 };
+        let mut g = TreeGen { wide_root: rng.chance(1, 150), unambiguous, max_depth: 1 + rng.usize(5), max_fanout: 1 + rng.usize(6), next_handler: 0 };
+        if g.wide_root {
+            g.max_depth = 1 + rng.usize(2);
+            g.max_fanout = 1 + rng.usize(3);
+        }
         let mut root = g.gen_children(rng, 0, &[]);
         let ncommon = rng.usize(4);
         for i in 0..ncommon {
